@@ -247,8 +247,10 @@ func (gs GenesisState) ValidateOperatorAssets(tokensTotalStaking map[string]math
 			// check that the asset is registered
 			// no need to check for the validity of the assetID, since
 			// an invalid assetID cannot be in the tokens map.
+			// the exo native token is not a registered token: its staking total is the
+			// bank supply, which is not known to this module's genesis.
 			totalStaking, ok := tokensTotalStaking[asset.AssetID]
-			if !ok {
+			if !ok && asset.AssetID != ExocoreAssetID {
 				return errorsmod.Wrapf(
 					ErrInvalidGenesisData,
 					"unknown assetID for operator assets %s: %s",
@@ -256,7 +258,7 @@ func (gs GenesisState) ValidateOperatorAssets(tokensTotalStaking map[string]math
 				)
 			}
 			// the sum amount of operators shouldn't be greater than the total staking amount of this asset
-			if asset.Info.TotalAmount.Add(asset.Info.PendingUndelegationAmount).GT(totalStaking) {
+			if ok && asset.Info.TotalAmount.Add(asset.Info.PendingUndelegationAmount).GT(totalStaking) {
 				return errorsmod.Wrapf(
 					ErrInvalidGenesisData,
 					"operator's sum amount exceeds the total staking amount for %s: %+v",
